@@ -28,6 +28,9 @@ CLAIMS['C08'] = dict(cat='proof', ref='DESIGN.md 5/C08',
 CLAIMS['C18'] = dict(cat='proof', ref='DESIGN.md 5/C18',
    text='Contracts on the three interval helpers, Cylinder.beam_intersection (against the callee contracts), center, volume and quadrature, executed symbolically from the working tree: line/infinite-cylinder and line/slab intersections characterise exactly the parameters t whose point lies inside (ghost lemmas: quadratic form, discriminant, roots), incl. parallel and tangent rays with infinite interval ends; path length = length of the ray inside both; quadrature: rotation about z x a with sin = |z x a| and cos = z.a for EVERY unit axis, which maps z to the axis (Rodrigues lemma), so all points lie inside the solid with positive weights summing to the volume (table facts enumerated completely on the real data); transmission bounds/monotonicity by an induction lemma. Bounded stand-ins on the real code for geometry and the transmission map.',
    note='Trusted: scipp model (where/inf handling, Rodrigues contract of rotations_from_rotvecs), instantiated trig/exp facts, instantiation rule, numpy Gauss rules (facts re-checked on produced values), the numpy matvec as weighted sum. Not decided: invariance up to quadrature accuracy (bounded only).')
+CLAIMS['C16'] = dict(cat='proof', ref='DESIGN.md 5/C16',
+   text='_gaussian/_lorentzian executed symbolically (both sides of the 1e-15 clamp): closed forms A/(sqrt(2pi)s) exp(-(x-mu)^2/(2s^2)) and (A/pi) s/((x-mu)^2+s^2) with unit(A)/unit(x), frame-clean; pseudo-Voigt = alpha L(s) + (1-alpha) G(s/sqrt(2 ln 2)) against callee contracts; polynomial = sum a_i x^i for degree 1..6 (complete); composite = sum of parts with exact parameter split; FWHM factors; symmetry, half-maximum at loc +- FWHM/2, reduction of the normalisation to the two classical integrals are lemmas. Prefix handling and guess(): bounded on the real classes.',
+   note='Trusted: scipp model, symbolic math.pi/sqrt/log(2), function congruence for exp, exp(-ln2)=1/2. Assumed (classical, not machine-checked here): int exp(-t^2/2)=sqrt(2pi), int 1/(1+t^2)=pi. Prefix strings: finite adversarial set only.')
 NA = {}
 checks = []
 for p in props:
